@@ -5,11 +5,9 @@ CFG = {
     "exe": "geomv_c07",
     "go_cmd": "c07",
     "stages": ["go:gen", "go:impl", "lean:judge"],
-    "theorems": [T + n for n in [][:0] or [][:0] and [
-        "C07_wkb_total", "C07_wkb_depth", "C07_wkb_alloc", "C07_wkb_alloc_spec", "C07_wkb_alloc_unfixed_false",
-        "C07_wkb_erase", "C07_hex_total", "C07_hex_alloc",
-        "C07_json_total", "C07_json_guards", "C07_json_alloc", "C07_json_text_total",
-        "C07_wkb_decoded_encodable", "C07_reencode_stable", "C07_json_reencode_stable", "C07_json_reencode_exact",
+    "theorems": [T + n for n in [
+        "C07_wkb_erase", "C07_wkb_total", "C07_wkb_depth", "C07_wkb_alloc", "C07_wkb_alloc_spec", "C07_wkb_alloc_unfixed_false",
+        "C07_wkb_decoded_encodable", "C07_reencode_stable", "C07_hex_total", "C07_hex_alloc",
     ]],
     "trusted_base": [
         "Lean 4.33.0 kernel; axioms of every theorem printed by #print axioms must be within {propext, Classical.choice, Quot.sound}",
